@@ -360,6 +360,9 @@ func isoScripts(svc string, r *Rng) [][][]byte {
 			{c("AUTH", w()), c("SET", "k", w()), c("GET", "k")},
 			{c("PING"), c("GET", "k"), c("FLUSHALL")},
 			{c("CONFIG", "GET", "dir"), c("KEYS", "*")},
+			// the one command the service implements, with every section that describes the server's state
+			{c("INFO"), c("info", "clients"), c("INFO", "all")},
+			{c("info", "stats"), c("info", "keyspace"), c("info", "memory"), c("info", "default")},
 		}
 	case "memcached":
 		v := w()
